@@ -10,7 +10,7 @@
    step succeeded (cf_erase_late, extracted by T1; without it: C20_early_erase_refuted). *)
 From Coq Require Import List ZArith NArith Bool Lia.
 From Gluon Require Import Gen.FactsLimits Model.UidValidityGen Model.MailStore Proofs.MailStoreBase Proofs.MailStoreWf
-  Proofs.MailStoreC04 Proofs.MailStoreC17 Proofs.MailStoreC20.
+  Proofs.MailStoreC04 Proofs.MailStoreC17 Proofs.MailStoreC20 Model.MailStoreDedup Proofs.MailStoreDedup.
 Import ListNotations.
 Open Scope Z_scope.
 
@@ -160,6 +160,24 @@ Theorem C20_move_copy_out_effect_on_recovery : forall hash fx c ad s d sel mv cr
 Proof. intros hash fx c ad s d sel mv cr lab. exact (rchange_out_of_recovery hash fx c ad s d sel mv cr lab). Qed.
 Print Assumptions C20_move_copy_out_effect_on_recovery.
 
+(* a remote that DE-DUPLICATES (CreateMessage answers with a message gluon already knows; Model/MailStoreDedup.v): the
+   store invariant is preserved by every operation, and an accepted MOVE / COPY out of the recovery mailbox leaves every
+   message the remote named in the destination - whatever other mailboxes hold it - and (MOVE) takes exactly the selected
+   messages out of the recovery mailbox *)
+Theorem C20_dedup_preserves_wf : forall hash fx c clock s o, wf s -> wf (fst (step_dedup hash fx c clock s o)).
+Proof. intros hash fx c clock s o W. exact (proj1 (good_step_dedup hash fx c clock s o W)). Qed.
+Print Assumptions C20_dedup_preserves_wf.
+Theorem C20_move_out_dedup_adds_named : forall c s b d sel mv s' a, wf s -> find_name b (s_mboxes s) = Some d ->
+  mb_id d <> recov_id -> out_dedup c s d sel mv true = (s', ResOk a) ->
+  (exists d', find_name b (s_mboxes s') = Some d' /\
+     forall x, In x (named_msgs (s_mboxes s) (s_nextmsg s) sel) -> exists u lit, In (u, (fst x, lit)) (mb_rows d')) /\
+  rec_rows s' = (if mv then keep_rows (map (fun r : row => fst (snd r)) sel) (rec_rows s) else rec_rows s).
+Proof. exact out_dedup_adds_named. Qed.
+Print Assumptions C20_move_out_dedup_adds_named.
+(* APPEND flags: the model's APPEND has no flag argument - neither Mailbox.Append nor actionCreateRecoveredMessage nor the
+   model's insert depend on them, so C20_ok_means_present_under_uid and C20_rejected_is_recoverable hold "for any flag
+   set"; that the SQL layer stores a message whatever its flags (\Deleted alone or combined) is exercised by the harness. *)
+
 (* erasing the hashes before the label step (the code before the fix): a MOVE out of the recovery mailbox that fails
    at the label step leaves the message there but forgets its hash, and the next rejected APPEND of the same literal
    stores it a second time *)
@@ -191,3 +209,15 @@ Example C20_hashless_history_example :
      OAppend inbox_name 9%N RemFail; OMove recov_name [3; 4] inbox_name true true; OAppend inbox_name 7%N RemFail]
   = [ResOk []; ResNo; ResNo; ResNoKnown; ResOk []; ResNo; ResOk []; ResNoKnown; ResNo; ResOk [(3, 1); (4, 2)]; ResNo].
 Proof. vm_compute. reflexivity. Qed.
+(* de-duplicating remote: the rejected message is recovered, the same bytes are accepted into mailbox 2 (Archive), then
+   the recovered copy is moved to INBOX: the remote names the Archive message, which must end up in INBOX as well *)
+Example C20_dedup_example :
+  let hashf := fun l : N => Some l in
+  let cfg := mkCfg 100 100 100000 100 in
+  let s1 := run hashf facts_fixed cfg (fun _ => 0) (init_store 100)
+              [OConnCreate inbox_name; OCreate [2%N] true; OAppend inbox_name 7%N RemFail] in
+  let s2 := fst (step_dedup hashf facts_fixed cfg (fun _ => 0) s1 (OAppend [2%N] 7%N RemOk)) in
+  let s3 := fst (step_dedup hashf facts_fixed cfg (fun _ => 0) s2 (OMove recov_name [1] inbox_name true true)) in
+  rec_rows s3 = [] /\ map (fun m => (mb_name m, map (fun r => snd (snd r)) (mb_rows m))) (s_mboxes s3)
+                     = [(recov_name, []); (inbox_name, [7%N]); ([2%N], [7%N])].
+Proof. vm_compute. split; reflexivity. Qed.
